@@ -433,18 +433,6 @@ pub mod math {
         libm::log1p(x)
     }
 
-    #[cfg(feature = "std")]
-    #[inline]
-    pub fn powi(base: f64, exp: i32) -> f64 {
-        base.powi(exp)
-    }
-
-    #[cfg(not(feature = "std"))]
-    #[inline]
-    pub fn powi(base: f64, exp: i32) -> f64 {
-        libm::pow(base, exp as f64)
-    }
-
     /// Euclidean remainder (modulo) - always returns positive result
     #[cfg(feature = "std")]
     #[inline]
